@@ -171,7 +171,7 @@ macro_rules! by_ty {
 }
 macro_rules! by_fq {
     ($ty:expr, $f:ident, $toks:expr, $out:expr) => {
-        by_ty!($ty, ["f" => f32, "q" => Quantity], $f, $toks, $out)
+        by_ty!($ty, ["f" => f32, "q" => Quantity, "w" => Word], $f, $toks, $out)
     };
 }
 macro_rules! by_all {
@@ -219,7 +219,7 @@ pub fn run(toks: &[&str], out: &mut Vec<String>) -> R<()> {
     match op {
         "sum" => by_fq!(ty, sum_n, toks, out),
         "prod" => by_fq!(ty, prod_n, toks, out),
-        "latest" => by_ty!(ty, ["f" => f32, "q" => Quantity, "b" => bool], latest_n, toks, out),
+        "latest" => by_ty!(ty, ["f" => f32, "q" => Quantity, "b" => bool, "w" => Word], latest_n, toks, out),
         "sum2" => by_fq!(ty, sum2, toks, out),
         "prod2" => by_fq!(ty, prod2, toks, out),
         "diff" => by_fq!(ty, diff, toks, out),
